@@ -13,6 +13,7 @@ import (
 	"github.com/ipld/go-ipld-prime/node/basicnode"
 	"github.com/ipld/go-ipld-prime/zzverif/ref/fnode"
 	"github.com/ipld/go-ipld-prime/zzverif/ref/gen"
+	"github.com/ipld/go-ipld-prime/zzverif/ref/lsys"
 	"github.com/ipld/go-ipld-prime/zzverif/ref/refcbor"
 	"github.com/ipld/go-ipld-prime/zzverif/ref/refval"
 )
@@ -77,6 +78,45 @@ func HLongString() {
 		v = refval.MkBytes([]byte(s))
 	default:
 		v = refval.MkMap([]string{s, "a"}, []*refval.V{refval.MkNull(), refval.MkInt(1)})
+	}
+	checkEncode(v, v, gen.MustBuild(v))
+}
+
+// HWideMap: maps wider than 12 entries (where sort.Slice leaves insertion sort for quicksort) with
+// keys of mixed lengths; a few insertion orders; values symbolic bytes.
+func HWideMap() {
+	n := []int{13, 16, 20}[nd.Choose("width", nd.Param("WIDTHS", 2))]
+	base := []string{"k", "bb", "a", "ccc", "ab", "z", "ba", "aaa", "y", "zz", "b", "abc", "x", "aab", "ya", "c", "d", "dd", "ddd", "e"}
+	keys := base[:n]
+	rot := nd.Choose("rotation", 3) * 5
+	reverse := nd.Choose("reverse", 2) == 1
+	v := &refval.V{K: refval.Map}
+	for i := 0; i < n; i++ {
+		k := keys[(i+rot)%n]
+		if reverse {
+			k = keys[(n-1-i+rot)%n]
+		}
+		v.Keys = append(v.Keys, k)
+		v.L = append(v.L, refval.MkInt(int64(i)))
+	}
+	checkEncode(v, v, gen.MustBuild(v))
+}
+
+// HBoundaryLinks: links whose CID is 22..24 and 254..256 bytes long (the zero-prefixed byte string
+// crosses the 23/24 and 255/256 head boundaries): identity multihash with a digest of that many free bytes.
+func HBoundaryLinks() {
+	cidLen := []int{22, 23, 24, 254, 255, 256}[nd.Choose("cidlen", 6)]
+	hdr := 4
+	if cidLen > 130 {
+		hdr = 5 // the multihash length needs a two-byte varint
+	}
+	d := nd.Bytes("d", cidLen-hdr)
+	l := lsys.V1Link(0x55, 0, d)
+	nd.Assert(len(l.Bytes()) == cidLen, "fixture: CID length")
+	v := refval.MkLink(l.Bytes())
+	which := nd.Choose("where", 2)
+	if which == 1 {
+		v = refval.MkList(v, refval.MkNull())
 	}
 	checkEncode(v, v, gen.MustBuild(v))
 }
